@@ -301,7 +301,11 @@ class Ctx:
         for e in entries:
             e["seq"] = self.ncheck
         self.checks.extend(entries)
-        # continue the path under the assumption that the clause holds (if possible)
+        # continue the path under the assumption that the clause holds (if possible); a clause that is
+        # concretely false on this path cannot be assumed: the path simply goes on, so that the
+        # remaining (independent) clauses of the harness are still evaluated
+        if z3.is_false(cond):
+            return False
         self.add(cond)
         if self._check() != "sat":
             raise PathInfeasible()
